@@ -292,6 +292,12 @@ class Opaque:
         return "Opaque(%s)" % (self.t.get("name") or self.t.get("kind"))
 
 
+# order in which a LazyObj presents its keys: JSON objects are unordered, a handler that walks the keys (or takes the
+# first one that matches) must not depend on the order the sender wrote them in.  0 = declaration order, 1 = reversed,
+# 2 = declaration order with the undeclared member in the middle.  Set by the lemma bodies between calls.
+KEY_ORDER = [0]
+
+
 class LazyObj(dict):
     """JSON object whose key set is symbolic: one (symbolic) bool per optional declared key.
     Only the keys a hook probes cause a fork.  Whole-object operations fork key by key."""
@@ -377,9 +383,17 @@ class LazyObj(dict):
 
     def _present(self):
         ks = [k for k in self._d["props"] if self._has(k)] + [k for k in self._set if k not in self._d["props"]]
+        if KEY_ORDER[0] == 1:
+            ks.reverse()
         x = self._d.get("extra")
         if x is not None and self._env.bit(x["bit"]):
-            ks.append(self._env.extra_name)
+            # the undeclared member: last (mode 0), first (mode 1) or between declared members (mode 2)
+            if KEY_ORDER[0] == 0:
+                ks.append(self._env.extra_name)
+            elif KEY_ORDER[0] == 1:
+                ks.insert(0, self._env.extra_name)
+            else:
+                ks.insert(1 if ks else 0, self._env.extra_name)
         return ks
 
     def keys(self):
